@@ -96,6 +96,22 @@ CLAIMED = {
         "Member verdicts are pane's own (checked by C01); the reference index is compared only where specified.",
         "DESIGN.md section 5, C11",
     ),
+    'C14': (
+        "Hypothesis generation of class definitions x supplied-field subsets x construction paths; class-model oracle (reference field images, default/factory freshness, set-field record, hook count)",
+        "Generated dataclass definitions are constructed through six paths (keyword, positional, mixed, mapping data, sequence data, make_unchecked); "
+        "the instance must match the class model field by field (converted images, defaults, fresh factory products never shared and never the "
+        "factory), dict(set_only=True) must equal the supplied names, __post_init__ must run exactly once, and the constructor must agree with from_data by name and by position.",
+        "Trusts the class model in pv/cg.py (computed from the spec, never from __pane_info__). Constructor arguments are plain interchange data.",
+        "DESIGN.md section 5, C14",
+    ),
+    'C15': (
+        "Hypothesis generation of class definitions (naming x layout options); per-class exhaustive enumeration of the name/layout decision table against the class model",
+        "For every generated class the whole decision table is enumerated (each input name, near-miss and other-style names, duplicates, unknown keys "
+        "with/without allow_extra, each required field absent, every sequence length 0..max+1, str/bytes/mapping vs sequence, disabled layouts) and "
+        "the output layout, output names and exclusions are compared with the model.",
+        "Trusts the class model's name tables (pv/cg.py) and the independent rename renderer; the python-name-as-key cell is unspecified.",
+        "DESIGN.md section 5, C15",
+    ),
     'C20': (
         "exhaustive enumeration of a finite name set + Hypothesis search, against an independent canonical renderer",
         "Every 1-3 word name over a 3-letter alphabet (47 988 names) is swept exhaustively through all 5 styles and all 25 style "
